@@ -53,6 +53,48 @@ func verifBeforeMLock(mu *sync.Mutex, tag string) {
 	mu.Unlock()
 }
 
+// verifMutating marks a point inside a critical section where shared state is
+// about to be modified: the write lock must be held (so a read lock must not be
+// obtainable). A violation is reported to the simulator through the yield tag.
+func verifMutating(mu *sync.RWMutex, tag string) {
+	if VerifYield == nil {
+		return
+	}
+	if mu.TryRLock() {
+		mu.RUnlock()
+		VerifYield("unlocked-mutation:" + tag)
+		return
+	}
+	VerifYield(tag)
+}
+
+// verifReading marks a point inside a critical section where shared state is
+// read: at least the read lock must be held (so the write lock must not be obtainable).
+func verifReading(mu *sync.RWMutex, tag string) {
+	if VerifYield == nil {
+		return
+	}
+	if mu.TryLock() {
+		mu.Unlock()
+		VerifYield("unlocked-read:" + tag)
+		return
+	}
+	VerifYield(tag)
+}
+
+// verifMutatingM is verifMutating for a plain mutex.
+func verifMutatingM(mu *sync.Mutex, tag string) {
+	if VerifYield == nil {
+		return
+	}
+	if mu.TryLock() {
+		mu.Unlock()
+		VerifYield("unlocked-mutation:" + tag)
+		return
+	}
+	VerifYield(tag)
+}
+
 // VerifYieldPoint lets other packages of the forwarder mark a yield point.
 func VerifYieldPoint(tag string) {
 	verifYield(tag)
